@@ -94,3 +94,10 @@ func FileSet(name string, words []uint64, cutBytes uint64) {}
 // HookCall (engine-only): when the code under test calls the framework function with this full name
 // (which the interpreter would otherwise havoc), run f instead: "the wrapped handler is invoked here".
 func HookCall(fullName string, f func()) {}
+
+// RedirectCall (engine-only): calls of the function with this full name run f (same signature) instead.
+func RedirectCall(fullName string, f interface{}) {}
+
+// PutBE64 stores v big-endian into b[0:8]; BE64 reads it back (bytes of a symbolic word stay linked to it).
+func PutBE64(b []byte, v uint64) {}
+func BE64(b []byte) uint64       { return 0 }
